@@ -51,6 +51,7 @@ func cmdProducer(args []tok) string {
 
 	var mu sync.Mutex
 	var lines []string
+	var downs []string
 	conns := 0
 	record := func(l []byte) {
 		mu.Lock()
@@ -128,6 +129,7 @@ func cmdProducer(args []tok) string {
 					}
 					c.Close()
 					if f.down > 0 {
+						t0 := time.Now()
 						ln.Close()
 						time.Sleep(f.down)
 						for {
@@ -137,6 +139,10 @@ func cmdProducer(args []tok) string {
 							}
 							time.Sleep(5 * time.Millisecond)
 						}
+						// how long the sink really was unreachable (a loaded machine stretches it)
+						mu.Lock()
+						downs = append(downs, fmt.Sprintf("%d", time.Since(t0)/time.Millisecond+1))
+						mu.Unlock()
 					}
 					continue
 				}
@@ -228,6 +234,9 @@ func cmdProducer(args []tok) string {
 	mu.Lock()
 	defer mu.Unlock()
 	res := "LINES " + strings.Join(lines, " ") + fmt.Sprintf(" | EC=%d | CONNS=%d", atomic.LoadUint64(&ec), conns)
+	if len(downs) > 0 {
+		res += " | DOWN=" + strings.Join(downs, ",")
+	}
 	if runErr != nil {
 		res += " | RUN=" + strings.ReplaceAll(runErr.Error(), " ", "_")
 	}
